@@ -1,6 +1,6 @@
 (* C19/Properties.v — the property theorems, nothing else.  Each is closed by [exact lemma]
    and followed by Print Assumptions (captured into the evidence by the check driver). *)
-From Verif Require Import Common.Base C19.Model C19.Proofs1 C19.Proofs2 C19.Proofs3 C19.Proofs4 C19.Proofs5.
+From Verif Require Import Common.Base C19.Model C19.Proofs1 C19.Proofs2 C19.Proofs3 C19.Proofs4 C19.Proofs5 C19.Proofs6 C19.Proofs7 C19.Proofs8.
 Local Open Scope Z_scope.
 
 (* ---- receiver helper -------------------------------------------------------------------- *)
@@ -163,6 +163,33 @@ Theorem exporter_persistent_excess : forall o outs ops,
   = s_offered st - s_stored st + s_shut st + s_wfr_failed st.
 Proof. exact exporter_persistent_excess_l. Qed.
 
+(* PERSISTENT queue, ANY batcher configuration in front of it (none, legacy batcher with merging and
+   splitting): after shutdown the items still stored are exactly those of the unread requests plus
+   those of the requests a shutdown-class OnDone left in the storage (proved through the Done /
+   refCountDone bookkeeping invariant, Proofs6-8) *)
+Theorem exporter_stored_after_shutdown : forall o outs ops,
+  o_sig o <> Profiles -> valid_batch o -> is_storage o = true ->
+  let st := run_exporter o outs ops in
+  s_stored st = qsum (s_queue st) + s_kept st.
+Proof. exact exporter_stored_general_l. Qed.
+
+(* hence exporter_balance in the property's own form for EVERY persistent configuration, for every
+   history in which no request was kept by a shutdown-interrupted export (s_kept = 0) ... *)
+Theorem exporter_balance_persistent_general_partial : forall o outs ops,
+  o_sig o <> Profiles -> valid_batch o -> Forall eop_nonneg ops -> is_storage o = true ->
+  let st := run_exporter o outs ops in
+  s_wfr_failed st = 0 -> s_kept st = 0 -> balance o st.
+Proof. exact exporter_balance_persistent_general_l. Qed.
+
+(* ... and in general the excess over offered - stored is EXACTLY the items of the requests kept
+   by shutdown-interrupted exports (S2) plus the wait-for-result failures *)
+Theorem exporter_persistent_excess_general : forall o outs ops,
+  o_sig o <> Profiles -> valid_batch o -> Forall eop_nonneg ops -> is_storage o = true ->
+  let st := run_exporter o outs ops in
+  lget (ExpSent (o_sig o)) (s_led st) + lget (ExpFailed (o_sig o)) (s_led st) + lget (ExpEnqFailed (o_sig o)) (s_led st)
+  = s_offered st - s_stored st + s_kept st + s_wfr_failed st.
+Proof. exact exporter_persistent_general_l. Qed.
+
 (* after shutdown nothing is left in the volatile part of the pipeline, and a memory queue is empty *)
 Theorem exporter_drained_after_shutdown : forall o outs ops,
   o_sig o <> Profiles -> valid_batch o ->
@@ -189,6 +216,33 @@ Theorem exporter_balance_wfr_refuted : exists o outs ops,
 Proof. exact wfr_refuted_l. Qed.
 
 (* ---- gauges ----------------------------------------------------------------------------------- *)
+
+(* MEMORY queue: at every operation boundary of every history (any batch / sizer / retry
+   configuration) the size field - which is what the size gauge reports - equals the summed size of
+   the requests accepted and not yet done: the unread ones plus every live one counted once (a
+   not-split request through its single Done reference, a split one through its refCountDone
+   cell); and it is 0 after shutdown *)
+Theorem gauges_exact_memory : forall o outs ops,
+  o_sig o <> Profiles -> valid_batch o -> is_storage o = false ->
+  let st := fold_left (step o) ops (init_est outs) in
+  s_qsize st = outstanding_size o st /\ s_qsize (shutdown o st) = 0.
+Proof. exact mem_size_exact_l. Qed.
+
+(* ... also at the moment a burst's gauge is read (gated Sends done, nothing exported yet) *)
+Theorem gauges_exact_memory_burst : forall o outs ops ns,
+  o_sig o <> Profiles -> is_storage o = false ->
+  let st := fold_left (step o) ops (init_est outs) in
+  let st1 := fold_left (fun s n => let s' := offer o s n in pump_closed o (S (length (s_queue s'))) s') ns st in
+  s_qsize st1 = outstanding_size o st1.
+Proof. exact mem_size_exact_burst_l. Qed.
+
+(* PERSISTENT queue: the same statement is FALSE: when the read index catches up with the write
+   index Read sets queueSize = 0 although the request just read (and any other in flight) is not
+   done, so the gauge under-counts by the size of the requests in flight at that moment until they
+   are done (onDone clamps at 0).  Witness: 3 gated Sends, size field 2, outstanding 3 *)
+Theorem gauges_exact_persistent_refuted : exists o st,
+  o_sig o <> Profiles /\ is_storage o = true /\ Inv6 o st /\ s_qsize st = 2 /\ outstanding_size o st = 3.
+Proof. exact persistent_size_undercounts_l. Qed.
 
 (* the size gauge reports the queue's size field at the moment of the reading, the capacity gauge
    the configured capacity (math.MaxInt for the queue built around a batcher alone); an accepted
@@ -220,7 +274,13 @@ Print Assumptions exporter_accounting_law.
 Print Assumptions exporter_balance_partial.
 Print Assumptions exporter_balance_persistent_partial.
 Print Assumptions exporter_persistent_excess.
+Print Assumptions exporter_stored_after_shutdown.
+Print Assumptions exporter_balance_persistent_general_partial.
+Print Assumptions exporter_persistent_excess_general.
 Print Assumptions exporter_drained_after_shutdown.
 Print Assumptions exporter_balance_refuted.
 Print Assumptions exporter_balance_wfr_refuted.
+Print Assumptions gauges_exact_memory.
+Print Assumptions gauges_exact_memory_burst.
+Print Assumptions gauges_exact_persistent_refuted.
 Print Assumptions gauges_exact_partial.
